@@ -35,7 +35,7 @@ class NonEmpty:
             r = must_yield(fn.node, self.ctx.cfg(fn))
         elif depth < 3:
             rets = [n for n in walk_own(fn.node) if isinstance(n, ast.Return)]
-            r = bool(rets) and all(isinstance(x.value, ast.Call) and self.call(fn, x.value, depth + 1) for x in rets)
+            r = bool(rets) and all(x.value is not None and self.expr(fn, x.value) for x in rets)
         self._memo[fn.key] = r
         return r
 
@@ -48,8 +48,17 @@ class NonEmpty:
             return True
         if isinstance(e, ast.Constant) and isinstance(e.value, (str, bytes, tuple)) and len(e.value) > 0:
             return True
+        if isinstance(e, ast.Call) and isinstance(e.func, ast.Name) and e.func.id in ('tuple', 'list', 'iter', 'reversed', 'sorted') \
+                and len(e.args) == 1 and not self.ctx.cg._is_local(f, e.func.id):
+            return self.expr(f, e.args[0])
         if isinstance(e, ast.Call):
             return self.call(f, e)
+        if isinstance(e, ast.Name) and self.ctx.cg._is_local(f, e.id):
+            vals = [n.value for n in walk_own(f.node) if isinstance(n, ast.Assign)
+                    and any(isinstance(t, ast.Name) and t.id == e.id for t in n.targets)]
+            others = [n for n in walk_own(f.node) if isinstance(n, (ast.AugAssign, ast.For, ast.With))
+                      and any(isinstance(x, ast.Name) and x.id == e.id and isinstance(x.ctx, ast.Store) for x in ast.walk(n))]
+            return bool(vals) and not others and e.id not in f.params() and all(self.expr(f, v) for v in vals)
         return False
 
 
